@@ -54,6 +54,19 @@ def rand_start(rng, midnight, dom28=False):
     return t
 
 
+NOMINAL = dict(s=1, n=60, h=3600, d=86400, b=120960, w=604800, m=2629800, q=7889400, y=31557600)   # seconds, roughly
+
+
+def period_parts(s):
+    parts, cur = [], ''
+    for ch in s:
+        cur += ch
+        if ch.isalpha():
+            parts.append(cur)
+            cur = ''
+    return parts
+
+
 def neg_str(s):
     """flip the sign of every part of a period string"""
     out, i = '', 0
@@ -126,8 +139,12 @@ def rand_spec(rng):
                 ks[0] = -ks[0]
             s = ''.join('%d%s' % (k, rng.choice('dwmqyhnsb')) for k in ks)
         t0 = rand_start(rng, True, dom28=True)
-        span = rng.choice([1, 9, 40, 124, rng.randrange(1, 500)])
-        t1 = t0 + sgn * span * DAY + (TD(0) if rng.random() < 0.7 else sgn * TD(hours=5))
+        span = rng.choice([1, 9, 40, 124, rng.randrange(1, 500)]) * DAY
+        # keep the list short: at most ~1500 steps of the net movement of one bump
+        net = abs(sum(int(p[:-1]) * NOMINAL[p[-1]] for p in period_parts(s)))
+        if net and span > 1500 * net * TD(seconds=1):
+            span = 1500 * net * TD(seconds=1)
+        t1 = t0 + sgn * span + (TD(0) if rng.random() < 0.7 or span < DAY else sgn * TD(hours=5))
         kind, bump = 'mixed', s
     else:             # compound period strings
         s = rng.choice(COMPOUNDS)
